@@ -2,7 +2,7 @@
    Statements only; proofs in Proofs/TxPipeProofs.v; model in Model/TxPipe.v (deliver-mode pipeline with the
    interpreter's result as oracle [evm_out]; [e_burn] = amount explicitly destroyed by a successful execution,
    [e_moves] = balance movements of a successful execution). *)
-From Evm Require Import TxPipe TxPipeProofs TxPipeDenom TxPipeDenomProofs.
+From Evm Require Import TxPipe TxPipeExt TxPipeProofs TxPipeDenom TxPipeDenomProofs.
 Open Scope Z_scope.
 
 (* one transaction, any outcome: the supply changes by exactly minus what a committed successful execution destroyed *)
@@ -234,3 +234,79 @@ Proof.
   destruct ((d =? 1) && (a =? 9)); [discriminate|]. destruct ((d =? 2) && (a =? 9)); [discriminate|].
   destruct ((d =? 1) && (a =? 8)); discriminate.
 Qed.
+
+(* ================================================================== executions aborted by a panic (Model/TxPipeExt.v)
+   x/evm/vm has no error channel: a value credited to a module account (the bank refuses: AddBalance panics) and a touched
+   empty module account at commit (DestroyAccount's guard panics) abort the whole transaction; baseapp.runTx recovers.
+   [deliver_panic s t gu]: such a transaction ([gu] = the consensus gas used, observed); [xstep]/[xfinal]/[xtrace]: histories
+   that contain them (Model/TxPipeDenom.v xitem) - what the blocks driver checks block by block
+   (Corr/CorrTxPipe.v run_items_is_xrun). *)
+
+(* no coin is created or destroyed, whatever the interpreter had minted or burnt before the panic *)
+Theorem C04_aborted_supply_unchanged : forall s t gu, supply (fst (deliver_panic s t gu)) = supply s.
+Proof. exact panic_supply. Qed.
+Print Assumptions C04_aborted_supply_unchanged.
+
+(* every balance: only the ante handler's fee movement remains (gas limit x price from the sender to the fee collector,
+   if the transaction passed admission) *)
+Theorem C04_aborted_balances_are_ante_effects : forall s t gu a,
+  t_from t <> FEE_COLLECTOR ->
+  bal (fst (deliver_panic s t gu)) a =
+    bal s a + (if passed (r_out (snd (deliver_panic s t gu))) && (a =? t_from t) then - (t_gas t * price_of s t) else 0)
+            + (if passed (r_out (snd (deliver_panic s t gu))) && (a =? FEE_COLLECTOR) then t_gas t * price_of s t else 0).
+Proof. exact panic_charge. Qed.
+Print Assumptions C04_aborted_balances_are_ante_effects.
+
+Theorem C04_aborted_balances_sum : forall s t gu l,
+  NoDup l -> In (t_from t) l -> In FEE_COLLECTOR l ->
+  total l (bal (fst (deliver_panic s t gu))) = total l (bal s).
+Proof. exact panic_total. Qed.
+Print Assumptions C04_aborted_balances_sum.
+
+(* the module account the execution tried to credit, and the EVM module's own account through which the credit was
+   minted, keep their balance: "the EVM module's own account always ends with a zero balance" *)
+Theorem C04_aborted_untouched_account_keeps_balance : forall s t gu a,
+  a <> t_from t -> a <> FEE_COLLECTOR -> bal (fst (deliver_panic s t gu)) a = bal s a.
+Proof. exact panic_untouched. Qed.
+Print Assumptions C04_aborted_untouched_account_keeps_balance.
+
+(* every denomination: no supply moves, no balance of another denomination moves *)
+Theorem C04_aborted_every_denomination : forall s t gu d,
+  supply_d (fst (xstep s (XPanic t gu))) d = supply_d s d /\
+  (forall a, d <> EVM_DENOM -> bal_d (fst (xstep s (XPanic t gu))) d a = bal_d s d a).
+Proof. intros s t gu d. split; [apply panic_denom_supply|intros a Hd; apply panic_denom_balance; exact Hd]. Qed.
+Print Assumptions C04_aborted_every_denomination.
+
+(* ANY history of executed, failed, ABORTED Ethereum transactions and Cosmos transactions, every denomination: final
+   supply = initial supply - explicit destructions (an aborted execution destroys nothing); it never grows *)
+Theorem C04_xsupply_history : forall l s d,
+  supply_d (xfinal s l) d = supply_d s d - xdestroyed_hist s l d.
+Proof. exact xsupply_history. Qed.
+Print Assumptions C04_xsupply_history.
+
+Theorem C04_xsupply_never_grows : forall l s d,
+  nonneg (d_other s) -> xburns_nonneg l -> supply_d (xfinal s l) d <= supply_d s d.
+Proof. exact xsupply_never_grows. Qed.
+Print Assumptions C04_xsupply_never_grows.
+
+(* a history without aborted executions is the history of the theorems above *)
+Theorem C04_xhistory_embeds : forall l s,
+  xfinal s (map XItem l) = dfinal s l /\ xtrace s (map XItem l) = trace (d_core s) (map core_item l).
+Proof. intros l s. split; [apply xfinal_embeds|apply xtrace_embeds]. Qed.
+Print Assumptions C04_xhistory_embeds.
+
+(* non-vacuity: account 7 sends 5 to the module account 50 (aborted: the 5 stay with 7, only the fee for the whole limit
+   moves, the supply and account 50 are as before, consensus gas used 0); with a gas limit below the intrinsic gas the
+   execution is never reached and the transaction ends as TxPipe.deliver says (whole limit consumed) *)
+Example C04_example_aborted :
+  let s := mkSt (fun a => if a =? 7 then 10^18 else 0) (fun _ => 0) (fun a => a =? 7) (fun _ => false)
+                (5 * 10^18) 1000 0 0 0 0 0 0 false false in
+  let t := mkTx 7 (Some 7) true false 2000 0 0 30000 0 5 false 21000 in
+  let t' := mkTx 7 (Some 7) true false 2000 0 0 20999 0 5 false 21000 in
+  let s' := fst (deliver_panic s t 0) in
+  panic_reached s t = true /\ supply s' = supply s /\ bal s' 50 = 0 /\ bal s' 7 = 10^18 - 30000 * 2000 /\
+  bal s' FEE_COLLECTOR = 30000 * 2000 /\ sqn s' 7 = 1 /\ blk_used s' = 0 /\ cum_gas s' = 30000 /\
+  snd (deliver_panic s t 0) = no_receipt CoreErr 30000 0 0 /\
+  panic_reached s t' = false /\ deliver_panic s t' 0 = deliver s t' no_exec /\
+  r_gas_used (snd (deliver_panic s t' 0)) = 20999.
+Proof. vm_compute. repeat split; reflexivity. Qed.
